@@ -36,6 +36,29 @@ CHECKS = {
              'on random uneven level sets; the resolvent identity is also evaluated on the real code for every method pair.',
         note=TB + 'Modelled, not verified: numpy.linalg.inv (contract |inv(M)M - I| <= 1e-9 + 1e-12 cond(M) checked per run), jnp.einsum, XLA.',
         design='6/C03'),
+    'C06': dict(
+        technique='Lean 4 theorems about an executable model of every IMEX integrator; tableaux regenerated from the source as exact '
+                  'rationals on every run (translator harness/gen/tableaux.py) and order/stability certificates re-proved by '
+                  'decide +kernel; exact rational correspondence with the real integrators',
+        text='Machine-checked proof for any field, any module of states, arbitrary F, linear G with a resolvent, any stage count and '
+             'any dt: reductions to the explicit / implicit parent method; low-storage recursion = Butcher form; scalar amplification '
+             'functions and their Taylor match to design order (Euler 1; CN-RK2, RK3-CN, SIL3, centred leapfrog 2; RK3/RK4/SIL3 '
+             '3/4/3 for G=0 linear F) on the coefficients regenerated from the source; rooted-tree order conditions; A-stability '
+             'over C for every dt >= 0, Re mu <= 0 (any low-storage scheme with non-decreasing alpha, SIL3 quartic inequality, leapfrog '
+             'alpha >= 1/2); length validation accepts exactly the consistent triples (negative witness for the old chained !=). '
+             'Two thirds of the correspondence cases are compared by exact rational equality. Butcher\'s theorem itself is not formalised.',
+        note=TB + 'Translator (monkey-patches the factories at run time, no source change). Not formalised: Butcher theorem (order conditions => order p for smooth F).',
+        design='6/C06'),
+    'C15': dict(
+        technique='Lean 4 theorems over the reals (Real.exp) about an executable model of the filters and of numpy broadcasting on shape '
+                  'lists, tied to the code by differential correspondence',
+        text='Machine-checked proof: exponential and diffusion factors lie in (0,1], equal 1 at l=0, are antitone in l and depend on l only; '
+             'two half steps = one full step for all step filters; array-valued strengths act slice-wise; Robert-Asselin leaves the '
+             'newest level and linear-in-time sequences unchanged and is a convex combination for r <= 1/2; _preserves_shape holds iff '
+             'shapes are broadcast-compatible and broadcast to the leaf shape, so scalars/clocks/unrelated leaves are untouched; '
+             'the diffusion step normaliser is positive on padded layouts (negative witnesses for both repaired defects).',
+        note=TB + 'exp is external to the executable model (Float.exp); proofs use Real.exp. Side conditions lmax>0, cutoff<1, tau!=0 are explicit.',
+        design='6/C15'),
 }
 
 NOT_YET = {
